@@ -687,10 +687,13 @@ fn ctypes(thorough: bool) -> Vec<Option<String>> {
 fn cvalues(thorough: bool) -> Vec<Option<String>> {
     let mut v: Vec<Option<String>> = vec![None];
     v.extend(["0", "2", "1,1", "H", "0,T", "H,T", "x", "1,", "T"].iter().map(|s| Some(s.to_string())));
+    // constant pairs: h = 0 with a non-zero constant t (Lee type: a sequence, not a bigraded table), both non-zero,
+    // and constants that vanish only in the ring (2 = 0 in F2, 3 = 0 in F3: zero-ness is decided after reduction)
+    v.extend(["0,1", "0,2", "2,1", "2,3", "0,-1", "3,3", "0,1/2"].iter().map(|s| Some(s.to_string())));
     if thorough {
         v.extend([
-            "-1", "1", "3", "-3", "+2", "00", "6", "0,0", "0,2", "2,0", "1,2", "3,3", "2,-2",
-            "1/2", "2/4", "0/5", "1/0", "1/2,0", "0,1/2", "1/2/3", "/1", "1/", "1/-2",
+            "-1", "1", "3", "-3", "+2", "00", "6", "0,0", "2,0", "1,2", "2,-2",
+            "1/2", "2/4", "0/5", "1/0", "1/2,0", "1/2/3", "/1", "1/", "1/-2",
             "9223372036854775807", "9223372036854775808", "-9223372036854775808", "-9223372036854775809",
             "2147483647", "2147483648", "-2147483648", "-2147483649", "4294967296", "99999999999999999999999999",
             "H,H", "T,H", "T,T", "H,0", "0,H", "H,1", "2,H", "H,2", "T,0", "T,1", "1,T", "H,T,0", "H,T,T", "0,H,T",
